@@ -6,8 +6,12 @@ Transcription of the REPAIRED code (fixes C16a, C16b applied):
 
 * `openfisca_core/holders/helpers.py` : `set_input_dispatch_by_period`, `set_input_divide_by_period`
 * `openfisca_core/holders/holder.py`  : `Holder.set_input`, `_to_array`, `_set`, `get_array`
-* `openfisca_core/simulations/simulation.py` : `calculate_add` on a variable without formula
-  (a sub-period that is not known evaluates to the default `0` **and is cached**).
+* `openfisca_core/simulations/simulation.py` : `Simulation.set_input` (the `end` test), `calculate` and
+  `calculate_add` on a variable without formula (a sub-period that is not known evaluates to the
+  default `0` **and is cached**).
+* `openfisca_core/simulations/simulation_builder.py` : `finalize_variables_init` (the buffered inputs of a
+  situation document are consumed small periods first: `builderFeed`), `_build_from_variables.py` :
+  `add_dated_values` (the short form is consumed in document order: `feedAll`).
 
 A holder's store maps a period (the key is the `Period` triple itself) to a vector with one
 exact value per entity. Values are `Rat`; an `int`-typed variable truncates towards zero
@@ -17,7 +21,8 @@ Python `while sub.start < after: …; sub = sub.offset(1)` is `walkFrom` with ex
 number of days between the two instants plus one: every step advances by at least one day).
 `holder._set(sub_period, array)` inside the two loops cannot raise (the sub-period has the
 variable's definition unit and size 1, the length was checked on entry, the second dtype
-conversion is idempotent), so the loops are written with the pure `sput`.
+conversion is idempotent), so the loops are written with the pure `sput`; the loop as the code has
+it is `fillLoop`, and `fillLoop_eq` / `C16_loops_with_set` prove the two equal on every walk.
 Not mirrored (outside the claim domain, never generated): when `sub.offset(1)` overflows year 9999
 in the middle of the dispatch loop the code has already written some pieces; the model refuses the
 whole input and leaves the store unchanged. On-disk storage is not modelled (it is not observable:
@@ -199,5 +204,91 @@ def calcAdd (var : VarSpec) (s : Store) (p : Period) : Except String (Option Vec
     else if var.neutralized then .ok (some (vzero var.count), s) else
     let r := sumOver var.count s subs
     .ok (some r.1, r.2)
+
+/-! ### the writing loop with `holder._set`, as the code has it (`fillLoop_eq`: it is `dispatchOn`) -/
+
+/-- `if holder.get_array(sub) is None: holder._set(sub, w)` as the code has it: `_set` converts the
+array again and checks the period -/
+def fillStepSet (var : VarSpec) (w : Vec) (s : Store) (q : Period) : Except String Store :=
+  match getArray var s q with
+  | none => holderSet var s q w
+  | some _ => .ok s
+
+/-- the writing loop of both helpers, with `holder._set` -/
+def fillLoop (var : VarSpec) (w : Vec) : Store → List Period → Except String Store
+  | s, [] => .ok s
+  | s, q :: r =>
+    match fillStepSet var w s q with
+    | .ok s' => fillLoop var w s' r
+    | .error e => .error e
+
+/-- `Simulation.calculate(v, q)` on a variable without formula (`_check_period_consistency`, then the
+cached value, else the default — which `put_in_cache` stores) -/
+def calcOne (var : VarSpec) (s : Store) (q : Period) : Except String (Vec × Store) :=
+  if var.defUnit ≠ .eternity ∧ (q.unit ≠ var.defUnit ∨ q.size ≠ 1) then .error "consistency" else
+  match getArray var s q with
+  | some v => .ok (v, s)
+  | none => .ok (vzero var.count, sput s (skey var q) (vzero var.count))
+
+/-! ### inputs given at once: situation documents
+
+`SimulationBuilder.build_from_entities` buffers the inputs of a document per variable and period and
+`finalize_variables_init` consumes the buffer "small periods first": a stable sort by
+`(inf if ETERNITY else size_in_days, unit_weight)`, then the `end` test, then `Holder.set_input`.
+`build_from_variables` (the short form `{variable: {period: values}}`, also what a YAML test's `input:`
+becomes when no entity is named) hands the inputs to `Simulation.set_input` in DOCUMENT order. -/
+
+/-- sort key of `finalize_variables_init`; `none` is `float("inf")` -/
+def feedKey (p : Period) : Except String (Option Int × Int) :=
+  if p.unit = .eternity then .ok (none, unitWeight p.unit)
+  else match p.sizeInDays with
+    | .ok d => .ok (some d, unitWeight p.unit)
+    | .error e => .error e
+
+/-- `<=` on the key tuples -/
+def keyLe (a b : Option Int × Int) : Bool :=
+  match a.1, b.1 with
+  | some x, some y => decide (x < y) || (decide (x = y) && decide (a.2 ≤ b.2))
+  | some _, none => true
+  | none, some _ => false
+  | none, none => decide (a.2 ≤ b.2)
+
+abbrev Keyed := (Option Int × Int) × (Period × Vec)
+
+/-- `x` goes in front of the first entry whose key is not smaller (Python's `sorted` is stable: `x` comes
+from further up in the document than everything already in the list) -/
+def insertKeyed (x : Keyed) : List Keyed → List Keyed
+  | [] => [x]
+  | y :: r => if keyLe x.1 y.1 then x :: y :: r else y :: insertKeyed x r
+
+def sortKeyed : List Keyed → List Keyed
+  | [] => []
+  | x :: r => insertKeyed x (sortKeyed r)
+
+/-- the keys are computed for the whole buffer before anything is set -/
+def keyAll : List (Period × Vec) → Except String (List Keyed)
+  | [] => .ok []
+  | pv :: r =>
+    match feedKey pv.1 with
+    | .error e => .error e
+    | .ok k =>
+      match keyAll r with
+      | .error e => .error e
+      | .ok ks => .ok ((k, pv) :: ks)
+
+/-- inputs consumed one after the other through `Simulation.set_input` (or the builder's copy of its
+`end` test followed by `Holder.set_input`); the first refusal aborts the construction -/
+def feedAll (var : VarSpec) : Store → List (Period × Vec) → Except String Store
+  | s, [] => .ok s
+  | s, (p, v) :: r =>
+    match simSetInput var s p v with
+    | .ok s' => feedAll var s' r
+    | .error e => .error e
+
+/-- `finalize_variables_init` on the buffer of one variable (document order in, shortest first consumed) -/
+def builderFeed (var : VarSpec) (s : Store) (doc : List (Period × Vec)) : Except String Store :=
+  match keyAll doc with
+  | .error e => .error e
+  | .ok ks => feedAll var s ((sortKeyed ks).map (·.2))
 
 end OFCore
